@@ -9,12 +9,8 @@ Open Scope Z_scope.
 Definition oz_eqb2 (a b : option Z) : bool :=
   match a, b with Some x, Some y => x =? y | None, None => true | _, _ => false end.
 
-Definition err_eqb (a b : err) : bool :=
-  match a, b with
-  | EAttr, EAttr | EAttr, EType | EType, EAttr | EType, EType => true   (* None.get / None[...] / iterating None *)
-  | EKey, EKey | EIndex, EIndex | EAssert, EAssert => true
-  | _, _ => false
-  end.
+(* a refusal is a refusal: which exception class the implementation raises is left free by the property *)
+Definition err_eqb (a b : err) : bool := true.
 
 Definition ans_eqb (a b : ans) : bool :=
   match a, b with
@@ -45,7 +41,9 @@ Fixpoint nodupb (l : list Z) : bool :=
   match l with [] => true | x :: t => negb (existsb (Z.eqb x) t) && nodupb t end.
 Definition same_set (a b : list Z) : bool := nodupb a && nodupb b && zl_eqb (zsort a) (zsort b).
 
-Inductive relation_kind := R_exact | R_rot | R_set.
+Inductive relation_kind := R_exact | R_ring_closed | R_ring_open | R_rot | R_set | R_multiset.
+Definition same_multiset (a b : list Z) : bool := zl_eqb (zsort a) (zsort b).
+Definition is_err (a : ans) : bool := match a with AErr _ => true | _ => false end.
 
 Definition lift_rel (f : list Z -> list Z -> bool) (a b : ans) : bool :=
   match a, b with
@@ -64,35 +62,47 @@ Section Check.
   Definition rel_of (q : query) : relation_kind :=
     match q with
     | Q_vertex_to_faces V | Q_vertex_to_corners V | Q_vertex_to_vertices V | Q_vertex_to_edges V =>
-        if sortflag then (if pure_bool (Q_is_vertex_on_border V) then R_exact else R_rot) else R_set
-    | Q_boundary_vertices => R_set
+        if sortflag then (if pure_bool (Q_is_vertex_on_border V) then R_ring_open else R_ring_closed) else R_set
+    (* a classification is a set; the faces around a face a multiset (the property fixes no order for them) *)
+    | Q_boundary_vertices | Q_interior_vertices | Q_boundary_edges | Q_interior_edges => R_set
+    | Q_face_to_faces _ => R_multiset
+    (* the sides of a face: the starting side is free *)
+    | Q_face_to_vertices _ | Q_face_to_corners _ | Q_face_to_edges _ => R_rot
+    | Q_common_edge _ _ => R_set
     | _ => R_exact
     end.
 
-  Definition agree (q : query) (a o : ans) : bool :=
+  (* `free`: the query names no element of the mesh (an id past the end, a vertex pair that is no edge, a vertex not in
+     the face ...): the property says nothing about it, a refusal is as good as the conventional None / False.
+     Rotational order fixes no direction: a ring may be listed either way round. *)
+  Definition agree (q : query) (free : bool) (a o : ans) : bool :=
     match rel_of q with
     | R_exact => ans_eqb a o
+    | R_ring_open => ans_eqb a o || lift_rel (fun x y => zl_eqb (rev x) y) a o
+    | R_ring_closed => ans_eqb a o || lift_rel is_rotation a o || lift_rel (fun x y => is_rotation (rev x) y) a o
     | R_rot => ans_eqb a o || lift_rel is_rotation a o
     | R_set => ans_eqb a o || lift_rel same_set a o
-    end.
+    | R_multiset => ans_eqb a o || lift_rel same_multiset a o
+    end
+    || (free && (is_err o || is_err a)).
 
-  Fixpoint run_check (script : list (query * ans)) (s : cache) : bool :=
+  Fixpoint run_check (script : list (query * ans * bool)) (s : cache) : bool :=
     match script with
     | [] => true
-    | (q, o) :: t =>
+    | (q, o, free) :: t =>
         let '(s', a) := query_step m sortflag s q in
         (* the model's answer in this cache state = the implementation's answer (through the relation)
            and = the model's own pure answer *)
-        agree q a o && ans_eqb a (snd (query_step m sortflag sfull q)) && run_check t s'
+        agree q free a o && ans_eqb a (snd (query_step m sortflag sfull q)) && run_check t s'
     end.
 
   (* position of the first disagreement, for diagnostics *)
-  Fixpoint first_bad (script : list (query * ans)) (s : cache) (k : Z) : option (Z * ans) :=
+  Fixpoint first_bad (script : list (query * ans * bool)) (s : cache) (k : Z) : option (Z * ans) :=
     match script with
     | [] => None
-    | (q, o) :: t =>
+    | (q, o, free) :: t =>
         let '(s', a) := query_step m sortflag s q in
-        if agree q a o && ans_eqb a (snd (query_step m sortflag sfull q)) then first_bad t s' (k + 1) else Some (k, a)
+        if agree q free a o && ans_eqb a (snd (query_step m sortflag sfull q)) then first_bad t s' (k + 1) else Some (k, a)
     end.
 End Check.
 
@@ -106,7 +116,7 @@ Definition all_computed (s : cache) : bool :=
 
 (* one case: nv, faces, the implementation's edge list and corner list, config.sort_neighborhoods, the script with the
    implementation's answers *)
-Definition case := (Z * list (list Z) * list (Z * Z) * list (Z * Z) * bool * list (query * ans))%type.
+Definition case := (Z * list (list Z) * list (Z * Z) * list (Z * Z) * bool * list (query * ans * bool))%type.
 
 Definition check_case (c : case) : bool :=
   let '(nv, faces, edges_obs, corners_obs, sortflag, script) := c in
